@@ -217,6 +217,8 @@ def gen_input_spec(family, p, rng, dtype=None, small=False):
     if dtype is None:
         dtype = "float32" if rng.random() < 0.6 else "float64"
     layout = "contig" if rng.random() < 0.6 else _pick(rng, LAYOUTS)
+    if rng.random() < 0.04:
+        layout = "unbatched"      # wrong rank today; judged like any other input if accepted
     return {"shape": shape, "dtype": dtype, "layout": layout,
             "seed": rng.randrange(1 << 30),
             # 1e-39 / 1e-309: values in the denormal range of the dtype
